@@ -241,7 +241,7 @@ open Gengo.Loader
 theorem faithful_keeps (w : World) (hwf : WellFormed w.facts w.v2) (hbt : BtKinds w.bt) :
     Keeps w (Faithful w.bt w.facts w.v2) where
   same := fun _ _ ho ht hb hd _ _ _ h => ⟨full_of_same ho ht hb hd h.1, same_sn ho ht hb h.2⟩
-  add := fun u ob u' h hf => ⟨addObj_full w.facts w.v2 hwf w.fuel u ob u' h.1 hf,
+  add := fun u ob u' _ h hf => ⟨addObj_full w.facts w.v2 hwf w.fuel u ob u' h.1 hf,
     (addObj_ninv w.facts w.v2 hbt w.fuel u ob u' ⟨h.1.1, h.2⟩ hf).2⟩
 
 theorem faithful_empty (bt : List Builtin) (F : Facts) (v2 : Bool) : Faithful bt F v2 {} :=
